@@ -485,7 +485,11 @@ func (lmd *Daemon) initializePeers(ctx context.Context) {
 			} else {
 				peer.Stop()
 				peer.data.Store(nil)
+				lmd.PeerMapLock.Lock()
 				lmd.PeerMapRemove(conn.ID)
+				lmd.PeerMapLock.Unlock()
+				// create a new peer from the changed connection below
+				peer = nil
 			}
 		}
 
